@@ -116,6 +116,9 @@ def build_world():
     contract(w, 'txdbus.protocol.BasicDBusProtocol.sendMessage', {'self': Ref(C), 'msg': Ref(MSG)},
              modifies=lambda cx: [(cx.args['self'], C + '.g_written')],
              ensures=lambda cx: [('written', cx.new(cx.args['self']).g_written == cx.old(cx.args['self']).g_written + 1)],
+             # writing may fail (a descriptor argument on a transport that cannot pass descriptors, a transport error): nothing is written then
+             raises={Exception: lambda cx: z3.BoolVal(True)},
+             raises_post={Exception: lambda cx: [('nothing written', cx.new(cx.args['self']).g_written == cx.old(cx.args['self']).g_written)]},
              assumed=True)
 
     # ---------------- reply handlers
@@ -210,6 +213,14 @@ def build_world():
 
     contract(w, 'txdbus.client.DBusClientConnection.callRemoteMessage', {'self': Ref(C), 'mcall': Ref('MethodCallMessage'), 'timeout': Opt(INT)},
              result=Ref(D), requires=crm_pre, ensures=crm_post,
+             raises={Exception: lambda cx: z3.BoolVal(True)},
+             raises_post={Exception: lambda cx: [
+                 ('a call that could not be sent is not outstanding: no entry under its serial, the other entries as before',
+                  z3.If(cx.old(cx.args['mcall']).expectReply,
+                        cx.new(cx.args['self'])._pendingCalls.dom == z3.Store(cx.old(cx.args['self'])._pendingCalls.dom, cx.old(cx.args['mcall']).serial, False),
+                        cx.new(cx.args['self'])._pendingCalls.dom == cx.old(cx.args['self'])._pendingCalls.dom)),
+                 ('a call that could not be sent leaves no armed deadline: every timer active afterwards was active before',
+                  (lambda t: z3.Implies(cx.new(VRef(t, T)).g_active, cx.old(VRef(t, T)).g_active))(z3.Int('t_any')))]},
              modifies=lambda cx: [(cx.args['self'], C + '._pendingCalls'), (cx.args['self'], C + '.g_written'), ('*', T + '.g_active'),
                                   ('*', T + '.g_serial'), ('*', T + '.g_d'), ('*', T + '.g_is_timeout_handler')] + [('*', D + '.' + f) for f in dfields])
 
@@ -452,6 +463,22 @@ def convention_cases():
     d.addErrback(got.append)
     if len(got) != 1:
         return 'callRemote with an invalid member did not fail its Deferred'
+    # a call that cannot be WRITTEN (a descriptor argument on a transport that cannot pass descriptors) completes once, as a failure,
+    # and leaves neither an entry nor a deadline behind - with and without a deadline of its own
+    for tmo in (5, None):
+        p, clock = make_connection()
+        out = []
+        try:
+            p.callRemote('/o', 'TakeFd', interface='org.e.I', destination='org.e', signature='h', body=[0], timeout=tmo).addBoth(out.append)
+        except Exception as e:
+            return 'a call that could not be written raised %s instead of returning a failed Deferred' % type(e).__name__
+        if len(out) != 1 or not isinstance(out[0], failure.Failure):
+            return 'a call that could not be written completed with %r' % (out,)
+        if p._pendingCalls or clock.getDelayedCalls():
+            return 'a call that could not be written (deadline %r) completed as a failure, yet %d entries and %d timers remain' % (tmo, len(p._pendingCalls), len(clock.getDelayedCalls()))
+        clock.advance(100)
+        if len(out) != 1:
+            return 'a call that could not be written completed %d times' % len(out)
     return None
 
 
